@@ -401,6 +401,11 @@ class HTTPChannel(wasyncore.dispatcher):
 
         if self.total_outbufs_len > self.adj.outbuf_high_watermark:
             with self.outbuf_lock:
+                if not self.connected:
+                    # the main thread closed the channel while we were waiting
+                    # for the lock, nobody would wake us up again
+                    return
+
                 _, exception = self._flush_exception(self._flush_some, do_close=False)
 
                 if exception:
